@@ -31,6 +31,7 @@ import (
 	"github.com/bluenviron/mediamtx/internal/externalcmd"
 	"github.com/bluenviron/mediamtx/internal/hooks"
 	"github.com/bluenviron/mediamtx/internal/logger"
+	"github.com/bluenviron/mediamtx/internal/servers/rtsp"
 	"github.com/bluenviron/mediamtx/internal/staticsources"
 	"github.com/bluenviron/mediamtx/internal/stream"
 	"github.com/bluenviron/mediamtx/internal/unit"
@@ -522,6 +523,17 @@ func vExec(op string) string {
 	if f[0] == "hookobj" {
 		return vHookObj(f[1])
 	}
+	if f[0] == "rtsp" {
+		// the real RTSP session handlers (shim tools/harness/c20rtsp, package internal/servers/rtsp)
+		out := rtsp.VerifRTSPSession(strings.Split(f[1], ","))
+		synctest.Wait()
+		return out
+	}
+	if f[0] == "rtspconn" {
+		out := rtsp.VerifRTSPConn(vB(f[1]))
+		synctest.Wait()
+		return out
+	}
 	w := vW
 	if w == nil {
 		return "no-world"
@@ -914,8 +926,22 @@ func vGenHistory(r *verifutil.Rand, prop string, thorough bool) []string {
 		case x < 92:
 			ops = append(ops, fmt.Sprintf("write %d", r.Intn(nsub+1)))
 		case x < 94:
-			if prop == "C20" && r.Chance(1, 2) {
-				ops = append(ops, "hookobj "+r.Pick("read", "connect"))
+			if prop == "C20" && r.Chance(2, 3) {
+				switch r.Intn(4) {
+				case 0:
+					ops = append(ops, "hookobj "+r.Pick("read", "connect"))
+				case 1:
+					ops = append(ops, "rtspconn "+vb(r.Bool()))
+				default:
+					evs := []string{"setup"}
+					for k := r.Intn(7); k > 0; k-- {
+						evs = append(evs, r.Pick("play", "pause", "play", "pause", "close", "setup"))
+					}
+					if r.Chance(2, 3) {
+						evs = append(evs, "close")
+					}
+					ops = append(ops, "rtsp "+strings.Join(evs, ","))
+				}
 			} else {
 				ops = append(ops, "reload "+vb(r.Bool()))
 			}
